@@ -17,6 +17,14 @@
 // of an activation that already returned (U1) or to a partial application of a
 // variadic function (U2) are counted as "unsettled:*" outcomes, not
 // violations; a VM panic is always a violation.
+//
+// Second family (vmkit/structured.go): the enumeration by size ends long before
+// a program can combine an enclosing lambda, a staged (partial, then completed)
+// application of a higher-order function and a lambda argument that reads the
+// enclosing parameter. The STRUCTURED family is the full product of small menus
+// contexts x observer x callees x stagings x link forms x argument shapes over
+// IntLib plus the native higher-order functions apply-to and both, judged by
+// the same oracle.
 package main
 
 import (
@@ -29,6 +37,11 @@ import (
 
 const block = 400
 
+// class suffix of disagreements on structured programs in which a function
+// argument that completes (or extends) a partial application reads a lambda
+// parameter that was bound after the partial application was made
+const lateSuffix = "@function-argument-reads-parameter-bound-after-the-partial-was-made"
+
 type part struct {
 	lib   *vmkit.Lib
 	progs *vmkit.Programs
@@ -39,8 +52,9 @@ func main() {
 	kit.Main(&kit.Check{
 		ID:    "C21",
 		Level: "model_checking",
-		Rule: "All closed, kind-correct expression trees over the library, by exact unranking of a counting grammar: literals 1,2; lambda parameters (kind any); globals as values; lambdas with parameter lists (), (a), (a b), (a b c) and under a binder also (b), (b a) (shadowing); calls of a global with 0..arity+1 arguments (fewer = partial application binding the trailing parameters, more = arity error); calls whose function is a lambda literal or a call, with 0..3 arguments. " +
+		Rule: "Family 1: all closed, kind-correct expression trees over the library, by exact unranking of a counting grammar: literals 1,2; lambda parameters (kind any); globals as values; lambdas with parameter lists (), (a), (a b), (a b c) and under a binder also (b), (b a) (shadowing); calls of a global with 0..arity+1 arguments (fewer = partial application binding the trailing parameters, more = arity error); calls whose function is a lambda literal or a call, with 0..3 arguments. " +
 			"Kinds int/pair/fn/any prune only statically ill-typed argument positions; kind any (parameters, results of first/second/apply/call/fail) is admitted everywhere so dynamic type errors stay reachable. Each program also runs with every 1-argument call marked pipelined, and function results are probed with `call p 5 6 7` and, one level deeper, `call (..) 8 9 3`. " +
+			"Family 2 (structured): context[observer[stages(callee, arguments)]], every combination of the menus named in the bound (scoping and arity are the only restrictions: shapes mentioning x/z exist only in contexts binding them; one-argument link forms only for one-argument stages; the variadic call is only applied completely), each stage applying the previous result to the TRAILING arguments not yet supplied, ordered by node count then generation order; no program is generated twice (vmkit self-test). " +
 			"Non-trivial = the reference interpreter performed at least one function application.",
 		Assumptions: []string{
 			"language rules R1-R6 of vmkit/lib.go (call-by-value; lexical scoping; call-position symbols are globals; partial application binds trailing parameters; too many arguments is an error; func-typed library parameters accept exactly arity-1 functions)",
@@ -71,6 +85,9 @@ func build(tier string) (kit.Space, string) {
 		parts = append(parts, part{lib: core, progs: vmkit.NewPrograms(core, 8, 8)})
 		bound += fmt.Sprintf("; all %d programs of exactly 8 nodes over the core library {pair, first, call, mix3} (parameter lists (), (a), (a b), nested (b); lambda/call-function calls with 0..2 arguments; no too-many-argument shapes)", parts[1].progs.Len())
 	}
+	hoLib := vmkit.HOLib()
+	st := vmkit.NewStructured(hoLib, tier == "thorough")
+	bound += "; " + st.BoundString()
 	bound += fmt.Sprintf("; %d hand-written larger programs (32/33-parameter boundary, re-entrancy, escaping closures, partial application twice); blocks of %d programs per case", len(extras), block)
 	var total int64
 	for i := range parts {
@@ -79,7 +96,8 @@ func build(tier string) (kit.Space, string) {
 	}
 	nA := parts[0].cases
 	nX := int64(len(extras))
-	total += nX
+	nS := (st.Len() + block - 1) / block
+	total += nX + nS
 	return kit.FuncSpace{N: total, F: func(i int64) kit.Result {
 		var r kit.Result
 		t := vmkit.NewTally(&r)
@@ -95,8 +113,10 @@ func build(tier string) (kit.Space, string) {
 			}
 			r.Count("extra-programs", 1)
 			r.Sample = map[string]string{"extra": x.Name, "program": vmkit.Print(x.E())}
+		case i < nA+nX+nS:
+			runStructured(&r, t, hoLib, st, i-nA-nX)
 		default:
-			runBlock(&r, t, parts[1], i-nA-nX)
+			runBlock(&r, t, parts[1], i-nA-nX-nS)
 		}
 		return r
 	}}, bound
@@ -123,4 +143,53 @@ func runBlock(r *kit.Result, t *vmkit.Tally, p part, c int64) {
 	}
 	r.Count("programs", hi-lo)
 	r.Sample = map[string]interface{}{"library": p.lib.Name, "program_indices": fmt.Sprintf("%d..%d", lo, hi-1), "some_programs": samples}
+}
+
+func runStructured(r *kit.Result, t *vmkit.Tally, l *vmkit.Lib, st *vmkit.Structured, c int64) {
+	lo, hi := c*block, (c+1)*block
+	if hi > st.Len() {
+		hi = st.Len()
+	}
+	var samples []string
+	t.Prefix = "structured:"
+	for j := lo; j < hi; j++ {
+		j := j
+		if sz := vmkit.ExprSize(st.Build(j)); sz != int(st.Desc(j).Size) {
+			t.Violate("harness:structured-size-formula", "%s: %d nodes, formula %d", st.Describe(j), sz, st.Desc(j).Size)
+		}
+		f := st.Features(j)
+		r.Count("structured:context="+f.Context, 1)
+		r.Count("structured:callee="+f.CalleeClass, 1)
+		r.Count("structured:stages="+f.Stages, 1)
+		for _, k := range f.Links {
+			r.Count("structured:link="+k, 1)
+		}
+		for _, k := range f.FnShapes {
+			r.Count("structured:function-argument="+k, 1)
+		}
+		if f.NativeHofPartialOuter {
+			r.Count("structured:completed-partial-of-native-hof-running-lambda-that-reads-enclosing-parameter", 1)
+		}
+		if f.LambdaHofPartialOuter {
+			r.Count("structured:completed-partial-of-lambda-hof-running-lambda-that-reads-enclosing-parameter", 1)
+		}
+		if f.PartialOfPartial {
+			r.Count("structured:partial-of-partial", 1)
+		}
+		t.ClassSuffix = ""
+		if f.LateBoundRead {
+			r.Count("structured:function-argument-reads-parameter-bound-after-the-partial-was-made", 1)
+			t.ClassSuffix = lateSuffix
+		}
+		ev, nt := l.Check21(t, func(vmkit.BuildOpts) b6.Expression { return st.Build(j) }, false, false)
+		r.Evals += ev
+		if nt {
+			r.Distinct++
+		}
+		if (j-lo)%97 == 0 && len(samples) < 4 {
+			samples = append(samples, vmkit.Print(st.Build(j))+"   ## "+st.Describe(j))
+		}
+	}
+	r.Count("structured-programs", hi-lo)
+	r.Sample = map[string]interface{}{"library": l.Name, "structured_program_indices": fmt.Sprintf("%d..%d", lo, hi-1), "some_programs": samples}
 }
